@@ -105,6 +105,10 @@ pub struct SecondaryStorage {
 
     /// Indexes of the current storage engine
     indexes: Mutex<InMemoryIndexes>,
+
+    /// Serializes CREATE TABLE / DROP TABLE: the existence check, the manifest record and the catalog
+    /// change must not interleave with another DDL statement (table ids are assigned in manifest order).
+    ddl_lock: Mutex<()>,
 }
 
 impl SecondaryStorage {
